@@ -492,7 +492,7 @@ func init() {
 			}
 		}})
 
-	register(&Rule{ID: "C11.claimfirst", Props: []string{"C11", "C12", "C13"}, Floor: 2,
+	register(&Rule{ID: "C11.claimfirst", Props: []string{"C11", "C12", "C13", "C01"}, Floor: 2,
 		Doc: "the module's own stake on a validator changes only after that validator's pending rewards were claimed",
 		Run: func(e *Engine, r *RuleRun) {
 			// x/distribution withdraws a delegator's pending rewards automatically (BeforeDelegationSharesModified)
